@@ -48,12 +48,47 @@ func hexPts(ps []s2.Point) []string {
 }
 
 func run(c *vkit.Collector, rng *vkit.Rng, budget int) {
+	floatBits(c, rng, budget)
 	primitives(c, rng, budget)
 	piqiExact(c, rng, budget)
 	simpleTypes(c, rng, budget)
 	loops(c, rng, budget)
 	polygons(c, rng, budget)
 	beyondLimits(c, rng, budget)
+}
+
+// ---- H_f64_frombits_bits / H_f64_eqb_bits: the two conversions of Base/GoPrim.v ----
+
+func floatBits(c *vkit.Collector, rng *vkit.Rng, budget int) {
+	for k := 0; k < 120*budget; k++ {
+		f := cg.AnyFloat(rng)
+		if math.IsNaN(f) {
+			continue
+		}
+		b := math.Float64bits(f)
+		c.Eval(fmt.Sprintf("f64bits:%x", b), true)
+		c.Check(fmt.Sprintf("bits(frombits %x)", b), vkit.App("Z.eqb", vkit.App("go_float64bits", vkit.App("go_float64frombits", cg.U64T(b))), cg.U64T(b)))
+		c.Check(fmt.Sprintf("frombits(bits %x)", b), vkit.App("fbiteq", vkit.App("go_float64frombits", vkit.App("go_float64bits", vkit.F(f))), vkit.F(f)))
+		c.Check(fmt.Sprintf("frombits %x", b), vkit.App("fbiteq", vkit.App("go_float64frombits", cg.U64T(b)), vkit.F(f)))
+	}
+}
+
+// checkCentre is H_piqi_exact on one vertex: if the detection accepts p at a level, the decoder's
+// reconstruction from the shifted (si,ti) is bit for bit the vector p was compared with.
+func checkCentre(c *vkit.Collector, p s2.Point) {
+	f, si, ti, lv := s2.VerifC09XYZToFaceSiTi(p)
+	if lv < 0 {
+		return
+	}
+	c.Eval("piqi-vertex", false)
+	want := s2.Point{Vector: s2.VerifC09FaceSiTiToXYZ(f, si, ti).Normalize()}
+	got := s2.VerifC09FacePiQiToXYZ(f, s2.VerifC09SiTiToPiQi(si, lv), s2.VerifC09SiTiToPiQi(ti, lv), lv)
+	if !ptEq(want, got) {
+		c.Violate("H_piqi_exact", "an accepted cell centre is not reconstructed bit for bit", map[string]interface{}{"p": hexPts([]s2.Point{p}), "face": f, "si": si, "ti": ti, "level": lv})
+	}
+	if p.Vector != got.Vector {
+		c.Violate("H_piqi_exact", "an accepted cell centre is not == its reconstruction", map[string]interface{}{"p": hexPts([]s2.Point{p}), "face": f, "si": si, "ti": ti, "level": lv})
+	}
 }
 
 // ---- leaf functions and the coder ----
@@ -374,7 +409,7 @@ func loops(c *vkit.Collector, rng *vkit.Rng, budget int) {
 
 func polygons(c *vkit.Collector, rng *vkit.Rng, budget int) {
 	formats := map[string]int{}
-	for k := 0; k < 70*budget; k++ {
+	for k := 0; k < 60*budget; k++ {
 		p, class := cg.GenPolygon(rng)
 		b, err := cg.Enc(func(w *bytes.Buffer) error { return p.Encode(w) })
 		b2, _ := cg.Enc(func(w *bytes.Buffer) error { return p.Encode(w) })
@@ -417,13 +452,16 @@ func polygons(c *vkit.Collector, rng *vkit.Rng, budget int) {
 		var terms []string
 		for i := range loopsP {
 			va, oa, da, ba := s2.VerifC09LoopFields(loopsP[i])
+			for _, v := range va {
+				checkCentre(c, v)
+			}
 			vb, ob, db, bb := s2.VerifC09LoopFields(qloops[i])
 			boundEnc := format == "compressed" && len(va) >= 64
 			terms = append(terms, cg.CLoopT(qloops[i], boundEnc))
 			r2 := map[string]interface{}{"type": "Polygon", "class": class, "format": format, "loop": i, "want": hexPts(va), "got": hexPts(vb), "bytes": rep["bytes"]}
 			if len(va) == 0 && format == "compressed" {
 				// a loop without vertices does not survive the compressed format (initBound turns it into the empty loop)
-				if len(vb) != 0 {
+				if len(vb) != 0 || da != db || oa != ob {
 					c.Violate("Polygon.compressed.zeroVertexLoop", "a loop with 0 vertices decodes as the 1-vertex empty loop (depth and origin flag reset)", r2)
 				}
 				continue
